@@ -40,7 +40,7 @@ func softTimeout() time.Duration {
 			return time.Duration(n) * time.Millisecond
 		}
 	}
-	return 1500 * time.Millisecond
+	return 2500 * time.Millisecond
 }
 
 type RunResult struct {
